@@ -184,25 +184,25 @@ type c04Sched struct {
 }
 
 type c04Params struct {
-	Idx       int             `json:"schedule"`
-	Range     uint64          `json:"sampling_range"`
-	L         int             `json:"concurrency_limit"`
-	MaxH      uint64          `json:"max_height"`
-	Tail0     uint64          `json:"tail0"`
-	Head0     uint64          `json:"head0"`
-	PFail     int             `json:"p_fail_pct"`
-	POutside  int             `json:"p_outside_pct"`
-	PBlock    int             `json:"p_block_pct"`
-	PCancel   int             `json:"p_cancelish_pct"`
-	PHdrFail  int             `json:"p_header_store_transient_fail_pct"`
+	Idx      int    `json:"schedule"`
+	Range    uint64 `json:"sampling_range"`
+	L        int    `json:"concurrency_limit"`
+	MaxH     uint64 `json:"max_height"`
+	Tail0    uint64 `json:"tail0"`
+	Head0    uint64 `json:"head0"`
+	PFail    int    `json:"p_fail_pct"`
+	POutside int    `json:"p_outside_pct"`
+	PBlock   int    `json:"p_block_pct"`
+	PCancel  int    `json:"p_cancelish_pct"`
+	PHdrFail int    `json:"p_header_store_transient_fail_pct"`
 	// SampleTimeout: per-sample timeout handed to the DASer (0 = one hour, i.e. never fires)
-	SampleTimeout time.Duration `json:"sample_timeout_ns"`
-	BgEvery   time.Duration   `json:"bg_store_interval_ns"`
-	Backoff   []time.Duration `json:"backoff_ns"`
-	Events    int             `json:"events"`
-	OcSeed    uint64          `json:"-"`
-	EndCrash  bool            `json:"end_with_crash"`
-	VaryLimit bool            `json:"vary_limit_on_restart"`
+	SampleTimeout time.Duration   `json:"sample_timeout_ns"`
+	BgEvery       time.Duration   `json:"bg_store_interval_ns"`
+	Backoff       []time.Duration `json:"backoff_ns"`
+	Events        int             `json:"events"`
+	OcSeed        uint64          `json:"-"`
+	EndCrash      bool            `json:"end_with_crash"`
+	VaryLimit     bool            `json:"vary_limit_on_restart"`
 }
 
 func (s *c04Sched) tr(format string, a ...any) {
